@@ -15,6 +15,7 @@ import (
 	"verif/harness/hook"
 	"verif/harness/rp"
 	"verif/harness/spec"
+	"verif/harness/zones"
 )
 
 func TestMain(m *testing.M) {
@@ -116,6 +117,11 @@ type dv struct {
 }
 
 func (d dv) date() types.Date {
+	if d.Loc == "" && !zones.DayExists(time.Local, d.C.Y, d.C.M, d.C.D) {
+		// a calendar day that the process zone skipped altogether cannot be built locally: it arrives as a value carried in
+		// another location (a cast from a UTC time.Time)
+		return types.Date(time.Date(d.C.Y, time.Month(d.C.M), d.C.D, 12, 0, 0, 0, time.UTC))
+	}
 	if d.Loc == "" {
 		return types.ToDate(d.C.Y, time.Month(d.C.M), d.C.D)
 	}
@@ -138,7 +144,17 @@ func lexDate(a, b spec.Civil) int {
 
 type dateTriple struct {
 	V [3]dv `json:"v"`
+	// PZ is the process-local zone while the triple is compared ("" = UTC)
+	PZ string `json:"process_zone,omitempty"`
 }
+
+// days that a zone skipped altogether (the date line moved), with the zones that did so
+var skippedDays = []struct {
+	zone string
+	day  spec.Civil
+}{{"Pacific/Apia", spec.Civil{Y: 2011, M: 12, D: 30}}, {"Pacific/Fakaofo", spec.Civil{Y: 2011, M: 12, D: 30}}, {"Pacific/Kiritimati", spec.Civil{Y: 1994, M: 12, D: 31}},
+	{"Pacific/Kanton", spec.Civil{Y: 1994, M: 12, D: 31}}, {"Pacific/Enderbury", spec.Civil{Y: 1994, M: 12, D: 31}}, {"Pacific/Kwajalein", spec.Civil{Y: 1993, M: 8, D: 21}},
+	{"Asia/Manila", spec.Civil{Y: 1844, M: 12, D: 31}}, {"Pacific/Guam", spec.Civil{Y: 1844, M: 12, D: 31}}, {"Pacific/Saipan", spec.Civil{Y: 1844, M: 12, D: 31}}}
 
 func decideDatePair(x, y dv) *rp.Fail {
 	a, b := x.date(), y.date()
@@ -162,7 +178,21 @@ func decideDatePair(x, y dv) *rp.Fail {
 	return nil
 }
 
-func checkDates(tr dateTriple) *rp.Fail {
+func checkDates(tr dateTriple) (f *rp.Fail) {
+	if tr.PZ == "" {
+		return checkDatesZ(tr)
+	}
+	ev.Class("date/process-zone-not-utc", 1)
+	loc, err := time.LoadLocation(tr.PZ)
+	if err != nil {
+		ev.Excluded("zone not in this tz database", 1)
+		return nil
+	}
+	zones.With(loc, func() { f = checkDatesZ(tr) })
+	return f
+}
+
+func checkDatesZ(tr dateTriple) *rp.Fail {
 	diff := 0
 	if tr.V[0].C.Y != tr.V[1].C.Y {
 		diff++
@@ -243,7 +273,20 @@ func genDates(t *rapid.T) dateTriple {
 	a := genDV(t, "a", nil)
 	b := genDV(t, "b", &a.C)
 	c := genDV(t, "c", &b.C)
-	return dateTriple{[3]dv{a, b, c}}
+	tr := dateTriple{V: [3]dv{a, b, c}}
+	switch rapid.IntRange(0, 5).Draw(t, "process.zone") {
+	case 0:
+		tr.PZ = gen.ZoneName(t, "pz")
+	case 1: // a zone that skipped a whole day, and that day among the values
+		s := skippedDays[rapid.IntRange(0, len(skippedDays)-1).Draw(t, "skipped")]
+		tr.PZ = s.zone
+		day := time.Date(s.day.Y, time.Month(s.day.M), s.day.D, 12, 0, 0, 0, time.UTC)
+		for i := range tr.V {
+			n := day.AddDate(0, 0, rapid.IntRange(-2, 2).Draw(t, "skipped.offset"))
+			tr.V[i].C = spec.Civil{Y: n.Year(), M: int(n.Month()), D: n.Day()}
+		}
+	}
+	return tr
 }
 
 func sweepDates(yield func(dateTriple) bool) {
@@ -253,9 +296,28 @@ func sweepDates(yield func(dateTriple) bool) {
 		if !ev.Mine(idx) {
 			return true
 		}
-		return yield(dateTriple{[3]dv{{C: a}, {C: b}, {C: c}}})
+		return yield(dateTriple{V: [3]dv{{C: a}, {C: b}, {C: c}}})
 	}
 	civ := func(t time.Time) spec.Civil { return spec.Civil{Y: t.Year(), M: int(t.Month()), D: t.Day()} }
+	// the days around a skipped day, in the zone that skipped it: local values and values carried in UTC
+	for _, s := range skippedDays {
+		day := time.Date(s.day.Y, time.Month(s.day.M), s.day.D, 12, 0, 0, 0, time.UTC)
+		for off := -2; off <= 0; off++ {
+			for _, utc := range []string{"", "UTC"} {
+				idx++
+				if !ev.Mine(idx) {
+					continue
+				}
+				tr := dateTriple{PZ: s.zone}
+				for i := range tr.V {
+					tr.V[i] = dv{C: civ(day.AddDate(0, 0, off+i)), Loc: utc, Clock: [3]int{12, 0, 0}}
+				}
+				if !yield(tr) {
+					return
+				}
+			}
+		}
+	}
 	// every adjacent-day pair 1999..2101 (as triples d, d+1, d+2)
 	for t := time.Date(1999, 1, 1, 12, 0, 0, 0, time.UTC); t.Year() <= 2101; t = t.AddDate(0, 0, 1) {
 		if !emit(civ(t), civ(t.AddDate(0, 0, 1)), civ(t.AddDate(0, 0, 2))) {
